@@ -143,6 +143,29 @@ pub fn gen_value(src: &mut Src, depth_left: usize, cfg: &GenCfg) -> J {
     // wide one (beyond 32 / 64 / 256 elements)
     if kind != 0 && src.chance(1, 25) {
         let n = if src.chance(1, 8) { *src.pick(&[31usize, 33, 63, 65, 127, 129, 255, 257, 300]) } else { 5 + src.below(12) };
+        // a list of records (the commonest shape of real documents): containers at two-digit indexes
+        if kind == 1 && depth_left >= 2 && src.chance(1, 3) {
+            let n = n.min(40);
+            let keys: Vec<String> = (0..1 + src.below(3)).map(|_| gen_key(src, cfg)).collect();
+            return J::Arr(
+                (0..n)
+                    .map(|i| {
+                        let mut m: Vec<(String, J)> = vec![];
+                        for k in &keys {
+                            if !m.iter().any(|(k2, _)| k2 == k) && !src.chance(1, 6) {
+                                let v = if src.chance(1, 5) { J::Arr(vec![J::Int(i as i64), gen_scalar(src)]) } else { gen_scalar(src) };
+                                m.push((k.clone(), v));
+                            }
+                        }
+                        if src.chance(1, 10) {
+                            J::Arr(m.into_iter().map(|x| x.1).collect())
+                        } else {
+                            J::Obj(m)
+                        }
+                    })
+                    .collect(),
+            );
+        }
         return if kind == 1 {
             J::Arr((0..n).map(|_| gen_scalar(src)).collect())
         } else {
